@@ -152,6 +152,66 @@ func (P *Prog) newCatchAnalysis() *catchAnalysis {
 		}
 		ca.ctors[fn] = fs
 	}
+	// wrappers: a function whose every return hands out the result of a constructor is a
+	// constructor too (NewSchemaCtx -> acquireSchemaCtx); flags it stores afterwards count
+	for changed := true; changed; {
+		changed = false
+		for _, fn := range P.Funcs {
+			res := fn.Signature.Results()
+			if _, done := ca.ctors[fn]; done || fn.Blocks == nil || res.Len() != 1 || !P.isPtrTo(res.At(0).Type(), R.SchemaCtx) || fn.Parent() != nil {
+				continue
+			}
+			var fs fieldSet
+			okW := true
+			nRet := 0
+			eachInstr(fn, func(_ *ssa.BasicBlock, _ int, in ssa.Instruction) {
+				rt, ok := in.(*ssa.Return)
+				if !ok {
+					return
+				}
+				rvs, okRV := retVals(rt)
+				if !okRV {
+					return
+				}
+				nRet++
+				c, ok := cv(rvs[0]).(*ssa.Call)
+				if !ok {
+					okW = false
+					return
+				}
+				inner, isCtor := ca.ctors[callOf(c).static]
+				if callOf(c).static == nil || !isCtor {
+					okW = false
+					return
+				}
+				cur := inner.clone()
+				eachInstr(fn, func(_ *ssa.BasicBlock, _ int, in2 ssa.Instruction) {
+					st, ok := in2.(*ssa.Store)
+					if !ok {
+						return
+					}
+					b, ff := fieldVar(st.Addr)
+					if ff == nil || cv(b) != ssa.Value(c) {
+						return
+					}
+					if bv, isC := constBool(st.Val); isC && !bv {
+						cur[ff.Origin()] = true
+					} else {
+						delete(cur, ff.Origin())
+					}
+				})
+				if fs == nil {
+					fs = cur
+				} else {
+					fs = fs.intersect(cur)
+				}
+			})
+			if okW && nRet > 0 && fs != nil {
+				ca.ctors[fn] = fs
+				changed = true
+			}
+		}
+	}
 	return ca
 }
 
